@@ -64,7 +64,7 @@ fn spec_of(unis: &[MapUniverse], offsets: &[u64], idx: u64) -> MapSpec {
 
 /// Extra cases behind the grammar universes: the four fixtures, windows of 48 of their objects, and every motif of 3
 /// objects over a narrow alphabet (circle / slider, two hit sounds) repeated 4 times.
-fn extra_cases() -> Vec<(String, rosu_pp::Beatmap)> {
+fn extra_cases(thorough: bool) -> Vec<(String, rosu_pp::Beatmap)> {
     let mut v = Vec::new();
     for (path, _) in vh::gen::fixture_paths() {
         if let Ok(m) = rosu_pp::Beatmap::from_path(path) {
@@ -78,7 +78,7 @@ fn extra_cases() -> Vec<(String, rosu_pp::Beatmap)> {
         }
     }
     let native: Vec<ModeCfg> = (0..4).map(|m| ModeCfg { src: m, dst: m }).collect();
-    for mu in vh::uni::rhythm_universes(&native, 3, 3) {
+    for mu in vh::uni::rhythm_universes(&native, 3, 3).into_iter().chain(if thorough { vh::uni::rhythm_universes_wide(&native) } else { Vec::new() }) {
         for i in 0..mu.total {
             let spec = mu.spec(i);
             v.push((spec.describe(), spec.decode()));
@@ -117,7 +117,7 @@ fn main() {
         }
         let out = std::io::stdout();
         let mut o = out.lock();
-        let extras = extra_cases();
+        let extras = extra_cases(tier == Tier::Thorough);
         for idx in a..b.min(total + extras.len() as u64) {
             let map = if idx < total { spec_of(&unis, &offsets, idx).decode() } else { extras[(idx - total) as usize].1.clone() };
             let d = std::panic::catch_unwind(|| battery::run(&map, &setts(), &keymods(), 10_000, &|| {}, true)).unwrap_or(0xdead_dead_dead_dead);
@@ -144,7 +144,7 @@ fn main() {
         offsets.push(total);
         total += u.total;
     }
-    let extras = extra_cases();
+    let extras = extra_cases(ctx.tier == Tier::Thorough);
     let grammar_total = total;
     let total = total + extras.len() as u64;
     let describe = |idx: u64| -> String {
